@@ -1121,6 +1121,39 @@ pub fn gen_cfg(t: &mut Tape) -> (GSpec, Vec<&'static str>) {
     };
     let mut root: Option<usize> = None;
     match tpl {
+        1 if nterms >= 6 && t.chance(128) => {
+            // a state that has to be split by context, reached directly and through another
+            // state M that lies on its lanes and reduces TA = m:
+            //   S = X d | Y c | a P d | a R c | a TA z1 | b P c | b R d | b TA z2
+            //   TA = m; P = m X; R = m Y; X = e; Y = e
+            // LR(1) (and not LALR(1)) unless z1 or z2 is `e` (then M shifts and reduces on `e`
+            // in that context only)
+            tags.push("template:lr1-not-lalr-with-lane-state");
+            let o = t.below(nterms);
+            let (a, b, c, d, e, m) = (tm(o), tm(o + 1), tm(o + 2), tm(o + 3), tm(o + 4), tm(o + 5));
+            let z1 = tm(t.below(nterms));
+            let z2 = tm(t.below(nterms));
+            let x = add(&mut spec, "TX", vec![vec![e.clone()]]);
+            let y = add(&mut spec, "TY", vec![vec![e.clone()]]);
+            let an = add(&mut spec, "TA", vec![vec![m.clone()]]);
+            let pn = add(&mut spec, "TP", vec![vec![m.clone(), SymKind::N(x)]]);
+            let rn = add(&mut spec, "TR", vec![vec![m.clone(), SymKind::N(y)]]);
+            let s = add(
+                &mut spec,
+                "TS",
+                vec![
+                    vec![SymKind::N(x), d.clone()],
+                    vec![SymKind::N(y), c.clone()],
+                    vec![a.clone(), SymKind::N(pn), d.clone()],
+                    vec![a.clone(), SymKind::N(rn), c.clone()],
+                    vec![a, SymKind::N(an), z1],
+                    vec![b.clone(), SymKind::N(pn), c],
+                    vec![b.clone(), SymKind::N(rn), d],
+                    vec![b, SymKind::N(an), z2],
+                ],
+            );
+            root = Some(s);
+        }
         1 if nterms >= 5 => {
             // LR(1) but not LALR(1): S = a A d | b B d | a B e | b A e; A = c; B = c
             tags.push("template:lr1-not-lalr");
